@@ -29,8 +29,11 @@ LEVEL_TEXT = (
     "parity (24 + 240 + 96 + 2 cells); the re-imported descriptor must equal "
     "the exported one under the literal permutation groups. Trusted: RDKit "
     "keeps the neighbour order of bond insertion and carries tags / "
-    "_chiralPermutation / atom-map numbers unchanged. E/Z after bond-order "
-    "regeneration and RDKit's own semantics are not decided.")
+    "_chiralPermutation / atom-map numbers unchanged and keeps the E/Z "
+    "stereo of a double bond. The E/Z branch of the exporter is folded for "
+    "both orientations of the RDKit bond and 8 lone-pair placeholder "
+    "patterns and composed with the importer's reconstruction. RDKit's own "
+    "semantics and bond-order regeneration as an algorithm are not decided.")
 
 
 def check_ez_roundtrip(prog: Program, res: Result, G) -> None:
